@@ -65,7 +65,9 @@ func catalogue() map[string][][]string {
 		"PDELCHAN":       {w("PDELCHAN c*"), w("PDELCHAN nope*"), w("PDELCHAN")},
 		"HOOKS":          {w("HOOKS *"), w("HOOKS hk*"), w("HOOKS nomatch"), w("HOOKS")},
 		"CHANS":          {w("CHANS *"), w("CHANS ch*"), w("CHANS nomatch"), w("CHANS")},
-		"EVAL":           {{"EVAL", catScriptW, "0"}, {"EVAL", catScriptR, "0"}, {"EVAL", catScriptDel, "0"}, {"EVAL", "return KEYS[1]..ARGV[1]", "1", "kk", "vv"}, {"EVAL", "return {1,2,{3,'x'}}", "0"}, {"EVAL", "return nil", "0"}, {"EVAL", "syntax error here", "0"}, {"EVAL", "error('boom')", "0"}, {"EVAL", "return 1"}, {"EVAL", "return 1", "x"}, {"EVAL"}},
+		"EVAL":           {{"EVAL", catScriptW, "0"}, {"EVAL", catScriptR, "0"}, {"EVAL", catScriptDel, "0"}, {"EVAL", "return KEYS[1]..ARGV[1]", "1", "kk", "vv"}, {"EVAL", "return {1,2,{3,'x'}}", "0"}, {"EVAL", "return nil", "0"}, {"EVAL", "syntax error here", "0"}, {"EVAL", "error('boom')", "0"}, {"EVAL", "return 1"}, {"EVAL", "return 1", "x"}, {"EVAL"},
+			// values JSON has no literal for
+			{"EVAL", "return 0/0", "0"}, {"EVAL", "return 1/0", "0"}, {"EVAL", "return {-1/0, 0/0}", "0"}, {"EVAL", "return {[1.5]='a'}", "0"}, {"EVAL", "return {a=0/0}", "0"}, {"EVAL", "return true", "0"}, {"EVAL", "return '\\255\\0\\n\"'", "0"}, {"EVAL", "return {1,nil,3}", "0"}, {"EVAL", "return 1e308*10", "0"}, {"EVAL", "return 2^53+1", "0"}, {"EVAL", "return print", "0"}, {"EVAL", "return {f=print, [true]=1}", "0"}},
 		"EVALRO":         {{"EVALRO", catScriptW, "0"}, {"EVALRO", catScriptR, "0"}, {"EVALRO", catScriptDel, "0"}, {"EVALRO", "return 1", "0"}, {"EVALRO"}},
 		"EVALNA":         {{"EVALNA", catScriptW, "0"}, {"EVALNA", catScriptR, "0"}, {"EVALNA", catScriptDel, "0"}, {"EVALNA", "return 1", "0"}, {"EVALNA"}},
 		"EVALSHA":        {{"EVALSHA", catSha, "0"}, {"EVALSHA", "@W", "0"}, {"EVALSHA", "@R", "0"}, {"EVALSHA"}},
